@@ -14,3 +14,4 @@ open Verif.Props.C09
 #print axioms css_string_closed_counterexample
 #print axioms css_raw_retokenises
 #print axioms css_raw_retokenises_counterexample
+#print axioms css_declaration_retokenises_raw
